@@ -269,6 +269,9 @@ func (ef *Filter) Process(ctx context.Context, e *eventlogger.Event) (*eventlogg
 					}
 				}
 				if f.Kind() == reflect.Ptr {
+					if f.IsNil() {
+						continue
+					}
 					f = f.Elem()
 				}
 				if f.Type() == reflect.TypeOf(structpb.Struct{}) {
@@ -293,6 +296,12 @@ func (ef *Filter) Process(ctx context.Context, e *eventlogger.Event) (*eventlogg
 		}
 	case pKind == reflect.Struct:
 		if err := ef.filterField(ctx, payloadValue, filterOverrides, tm, opts...); err != nil {
+			return nil, fmt.Errorf("%s: %w", op, err)
+		}
+	case pKind == reflect.Map:
+		// a payload which is itself an (untagged) map is filtered like any
+		// other untagged map found within a payload.
+		if err := tm.trackMap(&tMap{value: payloadValue}); err != nil {
 			return nil, fmt.Errorf("%s: %w", op, err)
 		}
 	}
@@ -413,6 +422,9 @@ func (ef *Filter) filterField(ctx context.Context, v reflect.Value, filterOverri
 						}
 					}
 					if f.Kind() == reflect.Ptr {
+						if f.IsNil() {
+							continue
+						}
 						f = f.Elem()
 					}
 					if f.Type() == reflect.TypeOf(&structpb.Struct{}) {
